@@ -14,6 +14,7 @@ type regExpParser struct {
 	chrOffset int
 	offset    int
 	chr       rune
+	groups    int
 	invalid   bool
 }
 
@@ -41,6 +42,7 @@ func TransformRegExp(pattern string) (string, error) {
 		str:      pattern,
 		length:   len(pattern),
 		goRegexp: bytes.NewBuffer(make([]byte, 0, 3*len(pattern)/2)),
+		groups:   countGroups(pattern),
 	}
 	p.read() // Pull in the first character
 	p.scan()
@@ -212,11 +214,30 @@ func (p *regExpParser) scanEscape(inClass bool) {
 	var length, base uint32
 	switch p.chr {
 	case '0', '1', '2', '3', '4', '5', '6', '7':
+		if p.chr != '0' {
+			// A decimal escape that names an existing group is a backreference (15.10.2.9).
+			end := offset
+			for end < p.length && '0' <= p.str[end] && p.str[end] <= '9' {
+				end++
+			}
+			if end-offset > 1 {
+				if n, err := strconv.Atoi(p.str[offset:end]); err == nil && n <= p.groups {
+					p.goRegexp.WriteByte('\\')
+					p.goRegexp.WriteString(p.str[offset:end])
+					for p.chrOffset < end {
+						p.read()
+					}
+					p.error(-1, "re2: Invalid \\%s <backreference>", p.str[offset:end])
+					return
+				}
+			}
+		}
+		// Otherwise an octal escape of at most three digits and value 0377.
 		var value int64
 		size := 0
-		for {
+		for size < 3 {
 			digit := int64(digitValue(p.chr))
-			if digit >= 8 {
+			if digit >= 8 || value*8+digit > 0o377 {
 				// Not a valid digit
 				break
 			}
@@ -403,6 +424,27 @@ skip:
 	if err != nil {
 		p.errors = append(p.errors, err)
 	}
+}
+
+// countGroups returns the number of capturing groups of pattern.
+func countGroups(pattern string) int {
+	count := 0
+	inClass := false
+	for i := 0; i < len(pattern); i++ {
+		switch pattern[i] {
+		case '\\':
+			i++
+		case '[':
+			inClass = true
+		case ']':
+			inClass = false
+		case '(':
+			if !inClass && (i+1 >= len(pattern) || pattern[i+1] != '?') {
+				count++
+			}
+		}
+	}
+	return count
 }
 
 func (p *regExpParser) pass() {
